@@ -98,7 +98,8 @@ impl<TLiteral: Debug + Clone + Eq + Ord> Bdd<TLiteral> {
     fn make_inner_variable_set(
         variables: BTreeSet<TLiteral>,
     ) -> Result<BddVariableSet, TryFromIntError> {
-        let num_vars = u16::try_from(variables.len())?;
+        // `lib_bdd` panics when given `u16::MAX - 1` variables or more, so leave room for two more
+        let num_vars = u16::try_from(variables.len() + 2)? - 2;
         Ok(BddVariableSet::new_anonymous(num_vars))
     }
 
